@@ -290,45 +290,41 @@ Fixpoint ovf_producer (before : list insn) : option opcode :=
   match before with
   | [] => None
   | p :: before' =>
-      match i_code p with
-      | MOV => if is_reg (nth_op (i_ops p) 1) then ovf_producer before' else Some MOV
-      | c => Some c
-      end
+      if opcode_eqb (i_code p) MOV && is_reg (nth_op (i_ops p) 1) then ovf_producer before'
+      else Some (i_code p)
   end.
+
+Definition code_is (c d : opcode) : bool := opcode_eqb c d.
 
 Definition check_header (fc : func_ctx) (ret_p jret_p : bool) (before : list insn) (ins : insn) : res unit :=
   let code := i_code ins in
   let nops := length (i_ops ins) in
-  match code with
-  | PHI | USE => Err E_vararg_func
-  | _ =>
-  if negb (f_vararg fc) && match code with VA_START => true | _ => false end then Err E_vararg_func
-  else if match code with JRET => true | _ => false end && negb (length (f_res fc) =? 0) then Err E_vararg_func
-  else if (match code with JRET => true | _ => false end && ret_p)
-          || (match code with RET => true | _ => false end && jret_p) then Err E_vararg_func
-  else if match code with RET => true | _ => false end && negb (nops =? length (f_res fc)) then Err E_vararg_func
+  if code_is code PHI || code_is code USE then Err E_vararg_func
+  else if negb (f_vararg fc) && code_is code VA_START then Err E_vararg_func
+  else if code_is code JRET && negb (length (f_res fc) =? 0) then Err E_vararg_func
+  else if (code_is code JRET && ret_p) || (code_is code RET && jret_p) then Err E_vararg_func
+  else if code_is code RET && negb (nops =? length (f_res fc)) then Err E_vararg_func
   else if call_code_p code then Ok tt
   else if ovf_branch_p code then
     match ovf_producer before with
     | None => Err E_invalid_insn
     | Some pc =>
         if negb (overflow_insn_code_p pc) then Err E_invalid_insn
-        else if match code with UBO | UBNO => true | _ => false end
-                && match pc with MULO | MULOS => true | _ => false end then Err E_invalid_insn
-        else if match code with BO | BNO => true | _ => false end
-                && match pc with UMULO | UMULOS => true | _ => false end then Err E_invalid_insn
+        else if (code_is code UBO || code_is code UBNO) && (code_is pc MULO || code_is pc MULOS)
+        then Err E_invalid_insn
+        else if (code_is code BO || code_is code BNO) && (code_is pc UMULO || code_is pc UMULOS)
+        then Err E_invalid_insn
         else Ok tt
     end
-  else Ok tt
-  end.
+  else Ok tt.
 
 Fixpoint check_insns (unspec : list proto) (fc : func_ctx) (ret_p jret_p : bool) (before : list insn)
          (insns : list insn) : res unit :=
   match insns with
   | [] => Ok tt
   | ins :: rest =>
-      let ret_p' := ret_p || match i_code ins with RET => true | _ => false end in
-      let jret_p' := jret_p || match i_code ins with JRET => true | _ => false end in
+      let ret_p' := ret_p || code_is (i_code ins) RET in
+      let jret_p' := jret_p || code_is (i_code ins) JRET in
       bind (check_header fc ret_p' jret_p' before ins) (fun _ =>
       bind (check_ops unspec fc ins) (fun _ =>
       check_insns unspec fc ret_p' jret_p' (ins :: before) rest))
@@ -336,6 +332,17 @@ Fixpoint check_insns (unspec : list proto) (fc : func_ctx) (ret_p jret_p : bool)
 
 Definition check_finish (unspec : list proto) (fc : func_ctx) (insns : list insn) : res unit :=
   check_insns unspec fc false false [] insns.
+
+(* building a function body: every instruction is created (MIR_new_insn_arr) and appended, then
+   MIR_finish_func runs.  The first error wins; creation errors come first in time. *)
+Fixpoint check_created (unspec : list proto) (insns : list insn) : res unit :=
+  match insns with
+  | [] => Ok tt
+  | ins :: rest => bind (check_new_insn unspec (i_code ins) (i_ops ins)) (fun _ => check_created unspec rest)
+  end.
+
+Definition check_body (unspec : list proto) (fc : func_ctx) (insns : list insn) : res unit :=
+  bind (check_created unspec insns) (fun _ => check_finish unspec fc insns).
 
 (* ------------------------------------------------------------------ register declarations *)
 
